@@ -55,10 +55,12 @@ def grid_state(grid):
 
 
 OPS = {
-    "simple": ["diff", "interp", "min", "max", "cumsum", "diff2", "pad", "vecdiff", "ctor", "interp_dicts"],
+    "simple": ["diff", "interp", "min", "max", "cumsum", "diff2", "pad", "vecdiff", "ctor", "interp_dicts",
+               "min_unpadded", "max_unpadded", "diff_unpadded", "min_to_inner"],
     "faces": ["fdiff", "finterp", "fvecdiff", "fvecinterp", "fpad", "fvecpad", "ctor_faces"],
     "faces3": ["fdiff", "finterp", "fdiffz", "fcumsumz", "fpad", "fpadz", "fdiff2d"],
-    "metrics": ["derivative", "integrate", "average", "cumint", "get_metric", "interp_like", "mw_diff"],
+    "metrics": ["derivative", "integrate", "average", "cumint", "get_metric", "interp_like", "mw_diff",
+                "get_metric_v", "integrate_v", "average_u"],
     "transform": ["t_linear_anon", "t_linear", "t_conservative", "t_log"],
 }
 
@@ -80,13 +82,15 @@ def build(case):
     if scen in ("simple", "metrics"):
         n, m = 4, 3
         ds = xr.Dataset(coords={"xc": ("xc", np.arange(n) + 0.5), "xg": ("xg", np.arange(n) * 1.0),
-                                "yc": ("yc", np.arange(m) + 0.5), "yg": ("yg", np.arange(m) * 1.0)})
+                                "yc": ("yc", np.arange(m) + 0.5), "yg": ("yg", np.arange(m) * 1.0),
+                                "yo": ("yo", np.arange(m + 1) * 1.0), "yi": ("yi", np.arange(m - 1) + 1.0)})
         ds["dx_c"] = ("xc", np.array([1.0, 2.0, 1.0, 0.5]))
         ds["dx_g"] = ("xg", np.array([2.0, 1.0, 4.0, 1.0]))
         ds["dy_c"] = ("yc", np.array([1.0, 2.0, 4.0]))
         w["boundary"] = {"X": "extend", "Y": "fill"}
         w["fill"] = {"X": 1.0, "Y": 2.0}
-        w["coords"] = {"X": {"center": "xc", "left": "xg"}, "Y": {"center": "yc", "left": "yg"}}
+        w["coords"] = {"X": {"center": "xc", "left": "xg"},
+                       "Y": {"center": "yc", "left": "yg", "outer": "yo", "inner": "yi"}}
         w["metrics"] = {("X",): ["dx_c", "dx_g"], ("Y",): ["dy_c"]} if scen == "metrics" else None
         w["ctor_kwargs"] = dict(coords=w["coords"], boundary=w["boundary"], fill_value=w["fill"],
                                 metrics=w["metrics"], autoparse_metadata=False)
@@ -95,6 +99,7 @@ def build(case):
                               coords={"xc": ds.xc, "yc": ds.yc})
         w["u"] = xr.DataArray(dyadic_array(rr, [n, m]), dims=["xg", "yc"], name="u")
         w["v"] = xr.DataArray(dyadic_array(rr, [n, m]), dims=["xc", "yg"], name="v")
+        w["co"] = xr.DataArray(dyadic_array(rr, [n, m + 1]), dims=["xc", "yo"], name="co")
         w["vecX"] = {"X": w["u"]}
         w["otherY"] = {"Y": w["v"]}
         w["to"] = {"X": "left", "Y": "left"}
@@ -171,6 +176,20 @@ def do(op, w):
         return g.cumsum(w["c"], ["X", "Y"], to=w["to"], boundary=w["call_boundary"], fill_value=w["call_fill"])
     if op == "diff2":
         return g.diff(w["c"], ["Y", "X"], to=w["to"], fill_value=w["call_fill"])
+    if op == "min_unpadded":           # shifts that need no padding hand the caller's own buffer to the kernel
+        return g.min(w["co"], "Y", to="center")
+    if op == "max_unpadded":
+        return g.max(w["co"], "Y", to="center")
+    if op == "diff_unpadded":
+        return g.diff(w["co"], "Y", to="center")
+    if op == "min_to_inner":
+        return g.min(w["c"], "Y", to="inner")
+    if op == "get_metric_v":           # the Y metric exists at the centre only: v sits on yg
+        return g.get_metric(w["v"], ("Y",))
+    if op == "integrate_v":
+        return g.integrate(w["v"], "Y")
+    if op == "average_u":
+        return g.average(w["u"], ["X", "Y"])
     if op == "pad":
         from xgcm.padding import pad
         return pad(w["c"], g, boundary_width=w["bw"], boundary=w["call_boundary"], fill_value=w["call_fill"])
